@@ -325,45 +325,28 @@ def rule_bump(S):
                      'border_split on every path; border_split: set_version_splitting(true) precedes the first '
                      'move of entries and the sibling receives a copy of the dirty word; init_border<V> (first key '
                      'of a fresh border) bumps vinsert')
-    # insert_lv
-    f = facts.one('yakushima::insert_lv')
-    bp = [p for p in f.params if p['type'].replace('const', '').replace(' ', '') == 'yakushima::border_node*']
-    if len(bp) != 1:
-        raise AnalysisBroken('R-BUMP: insert_lv has no unique border_node* parameter')
-    b = bp[0]['id']
-    sites = {}
-
-    def step(ctx, nd, st):
-        if is_call(nd, cq='yakushima::base_node::set_version_inserting_deleting') and \
-                root_var(f, call_recv(f, nd)) == b:
-            a = call_args(f, nd)
-            return 'Y' if (a and R.const_of(f, a[0]) == 'T') else 'N'
-        if is_call(nd, cq='yakushima::base_node::version_unlock') and root_var(f, call_recv(f, nd)) == b:
-            return 'N'
-        use = None
-        if is_call(nd, cq='yakushima::border_node::insert_lv_at') and root_var(f, call_recv(f, nd)) == b:
-            use = 'insert_lv_at'
-        if is_call(nd, cq='yakushima::border_split'):
-            a = call_args(f, nd)
-            if len(a) > 1 and root_var(f, a[1]) == b:
-                use = 'border_split'
-        if use:
-            e = sites.setdefault(use, {'ok': True, 'loc': short_loc(nd), 'path': None})
-            if st != 'Y':
-                e['ok'] = False
-                e['path'] = e['path'] or ctx.witness()
-        return st
-
-    Explorer(f, step).run('N')
-    for use in ('insert_lv_at', 'border_split'):
-        if use not in sites:
-            S.ob('R-BUMP', f.qname, 'call ' + use, False, 'insert_lv no longer calls %s on its border' % use,
-                 loc=f.loc)
-            continue
-        e = sites[use]
-        S.ob('R-BUMP', f.qname, 'call ' + use, e['ok'],
-             '%s is %sdominated by set_version_inserting_deleting(true) on the same border' %
-             (use, '' if e['ok'] else 'NOT '), loc=e['loc'], path=e['path'])
+    # inserts into a published border happen under a dirty bit; a helper that expects its caller to have set it shifts
+    # the requirement to its call sites (inferred need-summaries of the lock analysis, checks/lockfam.py)
+    from checks.lockfam import lock_analysis
+    from yk.locks import tok_str
+    la = lock_analysis(facts)
+    INS = ('yakushima::border_node::insert_lv_at', 'yakushima::insert_lv', 'yakushima::permutation::insert_rank')
+    ni = 0
+    seen_sites = set()
+    for ev in la.events:
+        if ev['kind'] == 'callneed' and ev.get('level') == 'D' and ev['callee'].qname in INS:
+            key = (ev['fn'].qname, ev['callee'].qname, ev['loc'])
+            if key in seen_sites and not ev['bad']:
+                continue
+            seen_sites.add(key)
+            ni += 1
+            S.ob('R-BUMP', ev['fn'].qname, 'call %s on %s at %s' % (ev['callee'].qname.replace('yakushima::', ''),
+                                                               tok_str(ev['token']), ev['loc']), not ev['bad'],
+                 'the border is marked inserting (or splitting) when the entry is inserted' if not ev['bad'] else
+                 'an entry is inserted into a border that is not marked inserting / splitting on this path: its '
+                 'version does not change on unlock and recorded node versions stay fresh (%s)' % ev.get('what', ''),
+                 loc=ev['loc'], path=ev.get('ctx_path'))
+    S.require('R-BUMP', 'insert sites under a dirty-bit requirement', ni, 3)
 
     # border_split
     g = facts.one('yakushima::border_split')
